@@ -293,7 +293,17 @@ pub fn c05(tier: &str, seed: u64, meta: &str) -> Report {
         let mut other = if i % 2 == 0 { psession(w, bits, false, None, None, "c05o").ok() } else { None };
         // a pool with many repeats of stems so that prefixes, suffix forms and case variants meet in the memo
         let stems = ["ami", "desh", "sesh", "kotha", "bidyut", "rong", "form", "as", "koTha", "neT", "net", "jhal", "tst", "amra", "bhasha", "boi", "manush", "kori", "bol", "din"];
+        // a quarter of the workers re-configure the warm context twice with a different database directory
+        // (same layout, same options): the tables of a context are those it loaded when it was built, and the
+        // memo must stay a function of them; the brand-new contexts go through the same re-configurations
+        let flips = i % 4 == 1;
+        let mut db_updates: Vec<SEv> = vec![];
         for n in 0..per {
+            if flips && (n == per / 3 || n == 2 * per / 3) {
+                let ev = SEv::UpdateDb(n != per / 3);
+                feed(w, &mut warm, &[ev.clone()], rep, "C05");
+                db_updates.push(ev);
+            }
             let t: String = match rng.below(10) {
                 0..=2 => format!("{}{}", rng.pick(&stems), rng.pick(&pr.suffix_keys)),
                 3 => rng.pick(&stems).to_string(),
@@ -330,6 +340,7 @@ pub fn c05(tier: &str, seed: u64, meta: &str) -> Report {
             // compare with a brand-new context typing the surviving text (every 4th case in quick: contexts are expensive)
             if n % (if thorough { 2 } else { 3 }) == 0 || t.len() > 9 {
                 let mut fresh = match psession(w, bits, true, Some(uac), Some(sels), "c05f") { Ok(s) => s, Err(_) => continue };
+                if !db_updates.is_empty() { feed(w, &mut fresh, &db_updates, rep, "C05"); }
                 let mut evs = pr.key_events(&t, 0);
                 if let Some(SEv::Key(k, m, _)) = evs.last().cloned() { let l = evs.len(); evs[l - 1] = SEv::Key(k, m, sel); }
                 let fs = feed(w, &mut fresh, &evs, rep, "C05");
@@ -346,7 +357,7 @@ pub fn c05(tier: &str, seed: u64, meta: &str) -> Report {
             }
         }
     });
-    rep.extra.insert("rule".into(), json!(format!("16 warm contexts (learned selections and a user auto-correct list present) compose {} words each (stems x all 737 suffixes, case variants, auto-correct keys, numbers, wrapped words, random strings) through random edit paths (detours removed by backspace); a third of them (and every long one) is re-typed directly in a brand-new context and the two renderings (candidates, order, preselection) must be identical; half of the workers also run a second context without database in the same thread; every event is also compared with the extracted model; non-trivial = at least two candidates", per)));
+    rep.extra.insert("rule".into(), json!(format!("16 warm contexts (learned selections and a user auto-correct list present) compose {} words each (stems x all 737 suffixes, case variants, auto-correct keys, numbers, wrapped words, random strings) through random edit paths (detours removed by backspace); a third of them (and every long one) is re-typed directly in a brand-new context and the two renderings (candidates, order, preselection) must be identical; half of the workers also run a second context without database in the same thread; a quarter of the warm contexts are re-configured twice (update_engine with the database directory switched off, later on again; the brand-new contexts get the same re-configurations before typing); every event is also compared with the extracted model; non-trivial = at least two candidates", per)));
     rep
 }
 
@@ -480,7 +491,9 @@ pub fn c08(tier: &str, seed: u64, meta: &str) -> Report {
     let p = Pools::load(meta);
     let thorough = tier == "thorough";
     let pr = &p;
-    let bases_q = ["bidyut", "rong", "ami", "desh", "ma", "hothat", "kkhet", "form"];
+    // one base per final-character class of the joining rules: khanda-ta, anusvara, every vowel sign
+    // (aa i ii u uu ri e oi o ou), independent vowels, a consonant, an auto-correct key
+    let bases_q = ["bidyut", "rong", "ami", "desh", "ma", "hothat", "kkhet", "form", "bou", "nodi", "bondhu", "bodhu", "matri", "ke", "koi", "alo", "keu", "boi", "dao"];
     let mut bases: Vec<String> = bases_q.iter().map(|s| s.to_string()).collect();
     if thorough {
         let mut rng = Rng::new(seed);
@@ -555,6 +568,14 @@ pub fn c08(tier: &str, seed: u64, meta: &str) -> Report {
     });
     rep.extra.insert("rule".into(), json!(format!("{} base words (candidates ending in khanda-ta, anusvara, a vowel, a consonant; an auto-correct key; multi-candidate words) x ALL {} suffix keys of suffix.json (exhaustive over the suffix table), a fifth of them wrapped in punctuation; base and base+suffix are typed in the same context; completeness and soundness are judged with okkhor's pattern over ALL dictionary tables, suffix.json and autocorrect.json read independently; non-trivial = the base has direct candidates", bases.len(), ns)));
     rep.extra.insert("exhaustive".into(), json!(true));
+    // which final characters of direct base candidates (the selector of the joining rule) were exercised
+    let mut w = Worker2::new(pr.data.clone());
+    let mut finals = std::collections::BTreeSet::new();
+    for b in bases.iter() {
+        let (ac, hits) = direct_of(&mut w, &vec![], b);
+        for c in ac.iter().chain(hits.iter()) { if let Some(ch) = c.chars().last() { finals.insert(format!("U+{:04X}", ch as u32)); } }
+    }
+    rep.extra.insert("final_characters_of_direct_base_candidates".into(), json!(finals));
     rep
 }
 
